@@ -1,9 +1,9 @@
-"""Run every translator (T1 funfit, T2 dataset tables, T3 vector arithmetic, T4 rfa loops, T5 search scans, T6 Weaver effect order) against /repo's working tree."""
+"""Run every translator (T1 funfit, T2 dataset tables, T3 vector arithmetic, T4 rfa loops, T5 search scans, T6 Weaver effect order, T7 loader protocol, T8 array helpers) against /repo's working tree."""
 import importlib
 import sys
 
 def main():
-    for t in ("t1_funfit", "t2_tables", "t3_vector", "t4_rfaloops", "t5_search", "t6_effects"):
+    for t in ("t1_funfit", "t2_tables", "t3_vector", "t4_rfaloops", "t5_search", "t6_effects", "t7_loader", "t8_arrays"):
         try:
             mod = importlib.import_module(f"harness.{t}")
         except ModuleNotFoundError:
